@@ -1661,6 +1661,7 @@ def fam_C12(rng, tier):
                 s.ping()
             else:
                 s.disconnect([('r', 4), ('rs', b'bye')])
+                s.ping()              # a refused DISCONNECT ends nothing: the PINGREQ is written (if it fits)
             # afterwards: the quota must be intact (2 slots), nothing half-registered
             if kind != 'disc':
                 s.publish(1, topic=b'a')
@@ -1764,6 +1765,7 @@ def fam_C13(rng, tier):
     for r in m.DISCONNECT_REASONS:
         causes.append(('sdisc', r))
     causes += [('sdisc-reason', r) for r in ([0, 0x04, 0x81, 0x8b, 0x8e] if tier == 'quick' else m.DISCONNECT_REASONS)]
+    causes += [('udisc-refused', 0), ('udisc-refused', 1)]
     causes += [('sdisc-empty', 0), ('udisc', 0), ('udisc', 0x04), ('udisc-cancelled', 0), ('udisc-batch', 0), ('udisc-batch', 1),
                ('udisc-batch', 2), ('udisc-batch', 3), ('batch-udisc', 0), ('eof', 0), ('err', 0), ('handles', 0),
                ('garbage', 0), ('badlen', 0), ('werr', 0)]
@@ -1774,7 +1776,7 @@ def fam_C13(rng, tier):
             cfg = 'werr=40' if cause == 'werr' else None
             s = Sess(f'c13-{cause}-{r}-{st.__name__}-{i}', cfg)
             i += 1
-            s.connect()
+            s.connect(connack_ps=[(39, 30)] if cause == 'udisc-refused' else [])
             st(s)
             if cause == 'sdisc':
                 s.feed(m.disconnect(r, rand_props(rng, [31, 28], p=0.5)))
@@ -1785,6 +1787,16 @@ def fam_C13(rng, tier):
             elif cause == 'udisc':
                 s.disconnect([('r', r)])
                 s.publish(0)         # must not be written after the DISCONNECT
+            elif cause == 'udisc-refused':
+                # the DISCONNECT exceeds the server's Maximum Packet Size: refused, nothing written — run() keeps serving,
+                # other requests still work, a DISCONNECT that fits ends it
+                s.disconnect([('r', 4), ('rs', b'a very long reason string, longer than thirty bytes')], h=0)
+                s.ping()
+                s.feed(m.pingresp())
+                if r:
+                    s.add('CLONE h0 h1')
+                    s.handles.append(1)
+                    s.disconnect([('r', 0)], h=1)
             elif cause == 'udisc-cancelled':
                 # the caller gives up on disconnect() after the request was queued: the DISCONNECT is still written
                 s.add('HOLD ctx')
@@ -2146,6 +2158,29 @@ def fam_C16(rng, tier):
                     ls.append('POLL ' + rng.choice(tasks))
             out.append((f'{name}#{vn}', ls))
     out += coincide_scripts('c16', groups=True)
+    # run() has returned, the Context object is still alive: parked streams and pending operations stay exactly as they are
+    # under extra polls (groups: wake / sweep / spurious POLLs)
+    for how in ['sdisc0', 'sdisc', 'eof', 'udisc']:
+        for variant in ['wake', 'sweep', 'spurious']:
+            s = Sess(f'c16-afterrun-{how}#{variant}', 'exec=sweep' if variant == 'sweep' else 'exec=wake')
+            s.connect()
+            st, sid = s.subscribed_stream()
+            s.feed(m.publish(b'a', b'one', 0, None, 0, 0, [(11, sid)]))
+            o1, p1 = s.publish(1)
+            if how == 'sdisc0':
+                s.feed(m.disconnect(0, []))
+            elif how == 'sdisc':
+                s.feed(m.disconnect(0x8b, []))
+            elif how == 'eof':
+                s.add('FEEDEOF')
+            else:
+                s.disconnect([('r', 0)])
+            for _ in range(2):
+                if variant == 'spurious':
+                    s.add(f'POLL st{st}')
+                    s.add(f'POLL op{o1}')
+                s.ping()
+            out.append(s.script())
     return out
 
 
